@@ -70,7 +70,7 @@ def p_find(q):
 
 def p_find_kmp(q):
     """longer self-overlapping patterns over {a,b}: exercises the failure table"""
-    pl, tl = (3, 6) if q else (4, 9)
+    pl, tl = (4, 7) if q else (4, 9)
     pats = list(strs([97, 98], pl, 1))
     texts = list(strs([97, 98], tl))
     for f in ("string/find", "string/find-all"):
@@ -307,7 +307,7 @@ def p_array_insert_remove(q):
         yield from calls("array/insert", [Arr(iota(k))], ix)
         yield from calls("array/insert", [Arr(iota(k))], ix, xs[:1], [OMIT, xs[1]], [OMIT, xs[2]])
         yield from calls("array/insert", [Arr(iota(k))], ix, [Alias(0)])
-        yield from calls("array/remove", [Arr(iota(k))], ix, [OMIT] + list(range(-2, k + 3)) + [1.5, None])
+        yield from calls("array/remove", [Arr(iota(k))], ix, [OMIT] + list(range(-2, k + 3)) + [1.5, None, 2147483647, 2147483646])
     yield from calls("array/insert", [iota(2), b"ab", None], [0], [1])
     yield from calls("array/remove", [iota(2), b"ab", None], [0], [1])
     yield ("array/insert", [Arr(iota(2))])
@@ -988,7 +988,7 @@ def run_all(chk, r):
 
 def bound_text(chk):
     if chk.quick:
-        return ("byte strings <=3 (kmp: patterns <=3, texts <=6), buffers/arrays 0..4-6 + growth grids to 18, sequences <=4 over {0,1,2}, "
+        return ("byte strings <=3 (kmp: patterns <=4, texts <=7), buffers/arrays 0..4-6 + growth grids to 18, sequences <=4 over {0,1,2}, "
                 "sort: all sequences <=7 over 4 letters, all permutations of 0..6, all 256 strict weak orders on 4 letters x sequences <=5")
     return ("byte strings <=4-5 (kmp: patterns <=4, texts <=9), buffers/arrays 0..8-12 + growth grids to 40-66, sequences <=5-6 over {0,1,2}, "
             "sort: all sequences <=9 over 4 letters, all permutations of 0..8, all 256 strict weak orders on 4 letters x sequences <=7")
